@@ -1,7 +1,5 @@
 """C15 — merging sequences yields exactly the union of their music."""
-import ast
 import itertools
-import re
 import gens as G
 import h3midi_util as H
 import pyimpl as P
@@ -78,7 +76,7 @@ def o_merge(inp):
     fails = []
     exp = union_iv([t for t, _ in tins])
     if sounding(tout) != exp:
-        fails.append(("union", f"expected {exp}, got {sounding(tout)}"))
+        fails.append(("union", H.Detail(f"expected {exp}, got {sounding(tout)}", expected=exp, got=sounding(tout))))
     if dout != max(d for _, d in tins):
         fails.append(("duration", f"{dout} vs max of {[d for _, d in tins]}"))
     allin = sorted([x for t, _ in tins for x in t], key=lambda x: x[0])
@@ -131,29 +129,28 @@ def setup(ctx):
     ctx.oracle("merge", o_merge)
 
     def kf_d17c(f):
-        # an input holds a zero-length note (note-on and note-off on one tick) AND every (channel, pitch) whose notes / sounding intervals
-        # came out wrong is the key of such a note
-        if f["clause"] not in ("union", "order"):
+        # an input holds a zero-length note (note-on and note-off on one tick) AND the OUTCOME is the mechanism's (audit round 4, B5): the merged
+        # absolute view is kept in canonical order, which lists that note's note-off before its note-on; normalise drops the note-off as an orphan
+        # — or lets it close a note of the key that another input has sounding there —, the note-on left open swallows every later note of
+        # the key and is removed at the end (h3midi_util.merged_notes_model on the inputs' events, in the merge order).  Known only when the
+        # sounding set of the merge is exactly that, and every (channel, pitch) on which it differs from the union is the key of such a note.
+        # Clause 'union' only (audit round 4, B7): the note shapes never depend on the merge order on /repo, zero-length notes or not (the merge
+        # is one stable sort of all events, and events with equal sort keys differ in velocity at most: 0 'order' failures next to 3 838 'union'
+        # failures on 6 000 families of two or three inputs with zero-length notes on one pitch) — an 'order' failure is always reported
+        if f["clause"] != "union":
             return False
-        zero = set()
+        d = H.data_of(f)
+        lists, zero = [], set()
         for r in f["input"]["rels"]:
             tr, _ = rel_timed([tuple(m) for m in r])
-            zero |= {(c, p) for (c, p, on, off, _) in notes_of(tr) if on == off}
-        if not zero:
+            evs = [(t, m[TY], m[CH], m[NOTE], m[VEL]) for t, m in tr if m[TY] in (ON, OFF)]
+            lists.append(evs)
+            zero |= H.zero_length_keys(evs)
+        if not zero or "got" not in d:
             return False
-        try:
-            if f["clause"] == "union":
-                m = re.match(r"^expected (\{.*\}), got (\{.*\})$", f["detail"])
-                exp, got = ast.literal_eval(m.group(1)), ast.literal_eval(m.group(2))
-                damaged = {k for k in set(exp) | set(got) if exp.get(k) != got.get(k)}
-            else:
-                m = re.match(r"^note shapes depend on the order: (\[.*\]) vs (\[.*\]) \(order .*\)$", f["detail"])
-                a, b = ast.literal_eval(m.group(1)), ast.literal_eval(m.group(2))
-                keys = {(x[0], x[1]) for x in a + b}
-                damaged = {k for k in keys if sorted(x for x in a if (x[0], x[1]) == k) != sorted(x for x in b if (x[0], x[1]) == k)}
-        except Exception:
-            return False
-        return bool(damaged) and damaged <= zero
+        model = H.sounding_of_events(H.merged_notes_model(lists))
+        damaged = {k for k in set(model) | set(d["expected"]) if model.get(k) != d["expected"].get(k)}
+        return bool(damaged) and damaged <= zero and d["got"] == model
     ctx.kf_predicates["D17c"] = kf_d17c
 
 
